@@ -75,6 +75,10 @@ def cases(tier, seed):
                     for blank in ([], [1]):
                         for src in ("stringio", "path"):
                             yield dict(kind="fault", nn=nn, ne=ne, region=ri, fault=fault, blank=blank, src=src)
+                    # the same header faults on a body whose rows are wrapped over several lines (seed C19-12: a recovery path for
+                    # wrapped rows that skips the range validation)
+                    for width in range(1, ne):
+                        yield dict(kind="fault", nn=nn, ne=ne, region=ri, fault=fault, blank=[], src="stringio", wrap=width)
 
 
 # ---------------------------------------------------------------- reference writer / reader
@@ -309,7 +313,7 @@ def run(case, rec):
                 del head[int(fault[4:])]
             return head
 
-        text = _write(nn, ne, region, vals, set(case["blank"]), SENT[0], 0, header=corrupt)
+        text = _write(nn, ne, region, vals, set(case["blank"]), SENT[0], 0, header=corrupt, wrap=case.get("wrap"))
         try:
             exp = ref_read(text)
         except ValueError as exc:
